@@ -232,6 +232,8 @@ class IdentityLinearOperator(ConstantDiagLinearOperator):
         right_tensor: Union[Float[Tensor, "... N P"], Float[Tensor, " N"]],
         left_tensor: Optional[Float[Tensor, "... O N"]] = None,
     ) -> Union[Float[Tensor, "... N P"], Float[Tensor, "... N"], Float[Tensor, "... O P"], Float[Tensor, "... O"]]:
+        # Raise on an incompatible right-hand side (the identity would otherwise hand back a tensor of any size)
+        _matmul_broadcast_shape(self.shape, right_tensor.shape)
         res = self._maybe_reshape_rhs(right_tensor)
         if left_tensor is not None:
             res = left_tensor @ res
